@@ -46,6 +46,12 @@ def run(ctx) -> None:
     ctx.reuse("C05.comp-forwarding", c13.same_args, "evo_dispense", "add")
     # the flat list of compositions is paired with the wells in column-major order (the documented flattening)
     ctx.reuse("C05.mix-args", c04.pairing_family)
+    # the mixing formula reads the well's volume before the addition from the labware's own store: a store shared with the
+    # caller (or another labware) or of integer dtype gives a wrong `v_original`, hence wrong fractions
+    from . import c02
+
+    ctx.reuse("C05.mix-args", c02.ctor)
+    ctx.reuse("C05.mix-args", c02.alias)
     ctx.guard("C05.default-name", default_name)
     ctx.guard("C05.default-name", trough_names)
     ctx.guard("C05.default-name", _name_buffers)
